@@ -31,6 +31,7 @@ type HQCall struct {
 	N       int             `json:"n"`
 	Fault   string          `json:"fault,omitempty"`
 	Applied bool            `json:"applied"`
+	Lost    bool            `json:"lost,omitempty"`     // applied but the client never got the answer
 	URLs    []gocrawlhq.URL `json:"urls,omitempty"`     // payload received
 	Out     []gocrawlhq.URL `json:"returned,omitempty"` // what was returned
 	Arg     string          `json:"arg,omitempty"`
@@ -91,9 +92,12 @@ func (m *HQModel) faultFor(kind string, n int) string {
 	return ""
 }
 
-func writeHTTP(c net.Conn, status int, body []byte) {
-	fmt.Fprintf(c, "HTTP/1.1 %d %s\r\nContent-Type: application/json\r\nContent-Length: %d\r\nConnection: close\r\n\r\n", status, statusText(status), len(body))
-	c.Write(body)
+func writeHTTP(c net.Conn, status int, body []byte) error {
+	if _, err := fmt.Fprintf(c, "HTTP/1.1 %d %s\r\nContent-Type: application/json\r\nContent-Length: %d\r\nConnection: close\r\n\r\n", status, statusText(status), len(body)); err != nil {
+		return err
+	}
+	_, err := c.Write(body)
+	return err
 }
 
 func (m *HQModel) serve(c net.Conn) {
@@ -172,7 +176,10 @@ func (m *HQModel) serve(c net.Conn) {
 		k.Note(actor, "hqsrv.done", kind, n, "reset-after")
 		return
 	}
-	writeHTTP(c, status, out)
+	if err := writeHTTP(c, status, out); err != nil {
+		// the client had already given up (its 5 s timeout): applied, but the answer was lost
+		call.Lost = true
+	}
 	k.Note(actor, "hqsrv.done", kind, n, status)
 }
 
